@@ -132,9 +132,36 @@ def runT (w : World Float) (t : Trans) (ops : List (TOp Float)) : List String :=
     let (w', o) := tstep epsF w t op
     observe w' o :: runT w' t rest
 
+/-- several transform instances in one world: `new:kind:pspec:cspec:bspec|-` constructs one, `i.top` operates on the
+i-th; one observation (all vectors of all instances) per op -/
+def runM (m : MWorld Float) (ops : List String) : List String :=
+  match ops with
+  | [] => []
+  | o :: rest =>
+    match o.splitOn ":" with
+    | ["new", kd, ps, cs, bs] =>
+      match kind? kd, spec? ps, spec? cs with
+      | some kd, some ps, some cs =>
+        let b : Option (Option (Spec Float)) := if bs = "-" then some none else (spec? bs).map some
+        match b with
+        | none => ["bad-op"]
+        | some b => match madd epsF m kd ps cs b with
+          | .error e => (observe m.world (.rejected e)) :: runM m rest
+          | .ok m' => observe m'.world .ok :: runM m' rest
+      | _, _, _ => ["bad-op"]
+    | _ =>
+      match o.splitOn "." with
+      | [i, t] => match i.toNat?, top? t with
+        | some i, some op =>
+          let (m', out) := mstep epsF m i op
+          observe m'.world out :: runM m' rest
+        | _, _ => ["bad-op"]
+      | _ => ["bad-op"]
+
 def handle (toks : List String) : String :=
   match toks with
   | ["eps"] => hexOfFloat epsF
+  | "M" :: ops => " | ".intercalate (runM MWorld.empty ops)
   | "V" :: sp :: ops =>
     match spec? sp, allSome (ops.map op?) with
     | some sp, some ops =>
